@@ -24,7 +24,7 @@ V4 = "3f7f0c5f-5d54-4292-94ea-ec1e1952be0"
 MUST_REFUSE = {"ref-to-marking-flavour-name", "ref-to-extension-name", "unregistered-type", "unregistered-type+extdef-property-extension", "unregistered-type+extdef-toplevel-extension",
                "x-property", "unknown-property", "unregistered-extension", "unknown-hash", "non-vocabulary-hash", "ref-to-unregistered-type", "unregistered-member-type",
                "custom_properties-in-json", "custom-property-in-extdef-toplevel-object", "extension-key-names-object-type", "extension-key-names-observable-type",
-               "extension-key-names-marking-flavour"}
+               "extension-key-names-marking-flavour", "unknown-hash-first", "non-vocabulary-hash-first", "ref-to-2.1-only-type"}
 
 
 def sites(base, version, tkey):
@@ -61,6 +61,9 @@ def sites(base, version, tkey):
             obj_site(path, "bundle-member")
         if k == "hashes" and isinstance(v, dict):
             out.append(("hashes", path, "unknown-hash", lambda j, path=path: _set(j, path + ("FOO-1",), "abcdef")))
+            # the same, but as the FIRST key of the dictionary (a specification algorithm follows it)
+            out.append(("hashes", path, "unknown-hash-first", lambda j, path=path: gen.set_path(j, path, dict([("FOO-1", "abcdef")] + list(harness.locate(j, path).items())))))
+            out.append(("hashes", path, "non-vocabulary-hash-first", lambda j, path=path: gen.set_path(j, path, dict([("SHA-224" if version == "2.1" else "TLSH", gen.HASHES["SHA-224"] if version == "2.1" else "0a" * 35)] + list(harness.locate(j, path).items())))))
             nv = "SHA-224" if version == "2.1" else "TLSH"
             out.append(("hashes", path, "non-vocabulary-hash", lambda j, path=path, nv=nv: _set(j, path + (nv,), gen.HASHES[nv] if nv != "TLSH" else "0a" * 35)))
         if k == "ref" and isinstance(v, str):
@@ -68,6 +71,10 @@ def sites(base, version, tkey):
             # names that ARE registered with the library, but not as object types
             out.append(("reference", path, "ref-to-marking-flavour-name", lambda j, path=path: gen.set_path(j, path, "statement--" + V4 + "2")))
             out.append(("reference", path, "ref-to-extension-name", lambda j, path=path: gen.set_path(j, path, "archive-ext--" + V4 + "2")))
+            if version == "2.0":
+                # a type that exists only in the OTHER spec version is custom here
+                out.append(("reference", path, "ref-to-2.1-only-type", lambda j, path=path: gen.set_path(j, path, "location--" + V4 + "2")))
+                out.append(("reference", path, "ref-to-2.1-only-type", lambda j, path=path: gen.set_path(j, path, "note--" + V4 + "2")))
     # extensions slot absent on the base but defined for the type: inject a whole extensions dict
     c = sp.classes[tkey]
     if "extensions" in c["properties"] and "extensions" not in base:
